@@ -102,3 +102,27 @@ Example C02_unwrap_ex :
    end) = (16, Ok (6, 1, repeat 7 14)) /\
   IpAuthHeaderA.to_header (mk_slice [17;0;0;0;0;0;0;0;0;0;0;0;0;0]) = Bug SITE_UNWRAP.
 Proof. vm_compute. repeat split. Qed.
+
+(* ---- the other decoder families: panic sites (unwrap/expect, indexing, push on
+   a full ArrayVec, usize underflow) and loop bounds are the same `Bug` values;
+   restated here so that C02 lists every family it rests on.  The TCP option
+   iterator (C13_in_bounds, C13_bounded, C13_exhausted), the NDP option iterator
+   (C17_ndp_options), defragmentation (C11_no_panic), extension chain walkers
+   (C12_write_iff_walk), readers (C16_readers_total) and the builder
+   (C10_never_panics) are stated in their own Props files. *)
+From EP Require Import Parse.Repr Parse.LaxSlices Parse.LaxCursor Parse.LaxWire Parse.LaxWireProofs
+  Parse.HdrModel Parse.HdrProofs3.
+
+Theorem C02_lax_total : forall bs et b, bytes_ok bs ->
+  LaxSlicedPacket.from_ethernet bs <> Bug b /\
+  LaxSlicedPacket.from_ether_type et bs <> Bug b /\
+  LaxSlicedPacket.from_ip bs <> Bug b.
+Proof. exact lax_never_bug. Qed.
+Print Assumptions C02_lax_total.
+
+Theorem C02_headers_total : forall bs et b, bytes_ok bs ->
+  PacketHeaders.from_ethernet_slice bs <> Bug b /\
+  PacketHeaders.from_ether_type et bs <> Bug b /\
+  PacketHeaders.from_ip_slice bs <> Bug b.
+Proof. exact hdr_never_bug_raw. Qed.
+Print Assumptions C02_headers_total.
